@@ -7,7 +7,7 @@ from hypothesis import strategies as st
 PROP = "C07"
 ENGINE = "S"
 MIS = ["no_token", "foreign_token", "pending_token", "used_token", "cancelled_token", "wrong_kind_token",
-       "cancel_unknown", "cancel_used", "cancel_cancelled"]
+       "cancel_unknown", "cancel_used", "cancel_cancelled", "other_store_token"]
 RULE = ("Engine S histories with misuse calls mixed into valid ones (other reservations and items present; a macro lets one process "
         "take several grants on one side, retire one that is not its oldest and present that dead token again): put/get with "
         "no token, another actor's granted token, a pending / used / cancelled token, a token of the other kind; cancel "
@@ -55,6 +55,8 @@ class ProtocolOracle(Oracle):
         self.do_misuse = do_misuse
         self.trace = []
         self.last_mis = None
+        self.sib = None
+        self.sib_tok = None
 
     def custom_op(self, h, op, outcome):
         if op[0] != "mis":
@@ -72,6 +74,23 @@ class ProtocolOracle(Oracle):
             return [t for t in h.toks if pred(t)]
 
         def build(kind):
+            if kind == "other_store_token":
+                # a live reservation of the same process on ANOTHER store of the same class (a node with two in-edges holds
+                # such tokens all the time): this store must refuse it and must not touch the other store
+                from ..harness_store import Subject
+                if actor >= h.n_actors:
+                    return None
+                if self.sib is None:
+                    self.sib = Subject(env, dict(h.case["subject"]))
+                sib = self.sib
+                if side == "p":
+                    st0, tok = h.as_actor(actor, sib.reserve_put, 0)
+                else:
+                    st0, tok = h.as_actor(actor, sib.reserve_get, 0, h.filters[0])
+                if st0 != "ok":
+                    return None
+                self.sib_tok = (sib, side, tok, actor)
+                return (actor, ("c" + side) if ref % 2 == 0 else side, tok)
             if kind == "no_token":
                 return (actor, side, env.event())
             if kind == "cancel_unknown":
@@ -100,7 +119,10 @@ class ProtocolOracle(Oracle):
         # construction, not rejection: take the first applicable kind starting at the requested one,
         # trying the token-based kinds before the two that are always applicable
         order = [MIS[(op[1] + j) % len(MIS)] for j in range(len(MIS))]
-        order = [k for k in order if k not in ("no_token", "cancel_unknown")] + [k for k in order if k in ("no_token", "cancel_unknown")]
+        order = [k for k in order if k not in ("no_token", "cancel_unknown", "other_store_token")] + [
+            k for k in order if k in ("no_token", "cancel_unknown")]
+        if MIS[op[1] % len(MIS)] == "other_store_token":
+            order = ["other_store_token"] + order
         if MIS[op[1] % len(MIS)] in ("no_token", "cancel_unknown"):
             order = [MIS[op[1] % len(MIS)]]
         for kind in order:
@@ -131,6 +153,7 @@ class ProtocolOracle(Oracle):
         self.res.classes.append("mis:" + kind)
         sigbase = (S.cls, kind, "put" if what == "p" else "get" if what == "g" else "cancel")
         if st_ != "exc":
+            self.sib_tok = None
             self.res.violate(sigbase + ("not_rejected",),
                              "%s by actor %d was accepted (returned %r) instead of raising RuntimeError (op#%d)" % (
                                  kind, who, v, h.current_op_index))
@@ -139,6 +162,16 @@ class ProtocolOracle(Oracle):
             self.res.violate(sigbase + ("wrong_exception", type(v).__name__),
                              "%s raised %s (%s) instead of RuntimeError (op#%d)" % (kind, type(v).__name__, v, h.current_op_index))
         outcome["exc"] = None
+        if kind == "other_store_token" and self.sib_tok is not None:
+            sib, sd, tok, who2 = self.sib_tok
+            self.sib_tok = None
+            # the reservation on the other store must still be there: withdrawing it there is a valid call
+            st2, v2 = h.as_actor(who2, sib.cancel_put if sd == "p" else sib.cancel_get, tok)
+            if st2 == "exc":
+                self.res.violate(sigbase + ("side_effect", "other_store"),
+                                 "the rejected call removed the caller's reservation on the OTHER store: withdrawing it there raised %s: %s (op#%d)" % (
+                                     type(v2).__name__, v2, h.current_op_index))
+                raise Abort("c07_desync")
         after = snapshot(h)
         if after != before:
             self.res.violate(sigbase + ("side_effect",),
